@@ -214,4 +214,40 @@ theorem c09_new_switch_numbers_fresh {cfg : RichCfg} {secs : List RSection} {ord
     · simp at h
     · exact fin _ h
 
+/-- how many switches of a batch carry no number -/
+def countUnnumbered (ss : List RSwitch) : Nat := (ss.filter (·.idx.isNone)).length
+
+/-- the placement loop hands the free numbers out in order: the new numbers are the first `k` free numbers,
+`k` = the number of switches that carried none — whatever the order of the batch -/
+theorem rebuildSwnm_go_new_numbers :
+    ∀ (ss : List RSwitch) (free : List Nat) (tbl : List RSwitch) (ids : List (RSwitch × Nat))
+      (out : List RSwitch) (oids : List (RSwitch × Nat)),
+      rebuildSwnm.go ss free tbl ids = .ok (out, oids) →
+      newSwitchNumbers oids = (newSwitchNumbers ids).reverse ++ free.take (countUnnumbered ss) := by
+  intro ss
+  induction ss with
+  | nil =>
+    intro free tbl ids out oids h
+    simp only [rebuildSwnm.go, Except.ok.injEq, Prod.mk.injEq] at h
+    obtain ⟨_, rfl⟩ := h
+    simp [newSwitchNumbers_reverse, countUnnumbered]
+  | cons s rest ih =>
+    intro free tbl ids out oids h
+    simp only [rebuildSwnm.go] at h
+    split at h
+    · rename_i i hi
+      have hc : countUnnumbered (s :: rest) = countUnnumbered rest := by simp [countUnnumbered, hi]
+      split at h
+      · simp at h
+      · split at h
+        · rw [ih _ _ _ _ _ h, newSwitchNumbers_cons_some s i i ids hi, hc]
+        · rw [ih _ _ _ _ _ h, newSwitchNumbers_cons_some s i i ids hi, hc]
+    · rename_i hnone
+      have hc : countUnnumbered (s :: rest) = countUnnumbered rest + 1 := by simp [countUnnumbered, hnone]
+      split at h
+      · simp at h
+      · rename_i f fs
+        rw [ih _ _ _ _ _ h, newSwitchNumbers_cons_none s f ids hnone, hc]
+        simp [List.take_succ_cons]
+
 end Richchk.Props.C09
